@@ -13,28 +13,10 @@ import TomlVerif.Lemmas.Tiling03MoreGen2Defs
     PROVED: `T03_genRun_genRun2` (inclusion) and the decidable facts below (the two target
     documents and eleven more are in `genRun2`, outside `genRun`, and decode to the same data).
 
-    NOT PROVED: `T03_same_data_general_class2_statement` (kept as a `Prop`).  No counterexample
-    was found (`#eval` on hand-made documents: headers, arrays of tables and take-overs below
-    dotted-key tables of the root, of a finalized section and of a taken-over table).  The
-    current-table side (`GInvG`, `kv_descendG`, `replay_body`) needs NO change: a header line
-    finalizes the current table first, so a dotted-key table that a header passes through always
-    lies in the root.  What is missing is on the root side, where `t.dotted = false` is built into
-    the path invariant of the take-over class:
-      1. `gkItems` (`Lemmas/Tiling03MoreSemTree.lean`) does not record the stored keys of
-         dotted-key tables (`hkSub k t = []` for a dotted `t`), but a header printed below a
-         dotted-key table is spelled with those keys: the root invariant must also carry
-         `GKey` for the keys of the dotted-key tables of the root (`bodyG` of every finalized
-         body), through `finalize_T` / `fin_spineT`.
-      2. `SpineA` / `StartRes`, `start_spineT`, `fin_spineT` (`Tiling03MoreSemTree.lean`,
-         `Tiling03MoreTkoTree.lean`) state `t.dotted = false` at every level and use it for
-         `valuesTbl_mid_table` and `entText_tbl_congr`; the dotted case needs the analogue with
-         `valuesTbl_mid_dotted` (`Tiling03MoreNadTree.lean`; the new child is a non-dotted table,
-         `valuesDotted` of it is `[]`, so the enclosing body text is unchanged) and the summary
-         `nsTbl` of a dotted-key table (no entry of its own, `hdN = []`, its items visited under
-         the path through its stored key).
-    Missing lemma, precisely: `start_spineT` and `fin_spineT` with `pathOkT2` in place of
-    `pathOkT` and a `SpineA` without `t.dotted = false` (plus 1.); `header_step_T`, `finalize_T`
-    and everything above them then go through unchanged. -/
+    `T03_same_data_general_class2_statement` (kept here as a `Prop`) is PROVED in
+    `Props/C03MoreGen3.lean` (`T03_same_data_general_class2`) with the generalised spine lemmas of
+    `Lemmas/Tiling03MoreGen2{Tree,State,Main}.lean` (`gk2Items` records the stored keys of dotted-key
+    tables; `SpineA2`, `start_spineT2`, `fin_spineT2` without `t.dotted = false`). -/
 namespace TomlVerif.Props.C03More
 open TomlVerif TomlVerif.Model TomlVerif.Model.Cst TomlVerif.Model.Encode
 open TomlVerif.Lemmas.Tiling03More TomlVerif.Lemmas.Tiling03More.Tko TomlVerif.Lemmas.Tiling03More.Gen
@@ -42,7 +24,7 @@ open TomlVerif.Lemmas.Tiling03More TomlVerif.Lemmas.Tiling03More.Tko TomlVerif.L
 /-- class inclusion -/
 theorem T03_genRun_genRun2 (s : Bytes) (h : genRun s = true) : genRun2 s = true := genRun_G2 s h
 
-/-- the statement for the larger class — NOT proved (see the header of this file) -/
+/-- the statement for the larger class — proved in `Props/C03MoreGen3.lean` -/
 def T03_same_data_general_class2_statement : Prop :=
   ∀ (s : Bytes) (d : CDoc), parseCst s = some d → genRun2 s = true →
     Doc.parseDocument (printDoc s d) = Doc.parseDocument s
